@@ -905,6 +905,76 @@ def opC07Multi : List String → Res
     | _, _, _, _, _ => bad
   | _ => bad
 
+/-- FNV-1a (32 bit) of a byte string -/
+def fnv32 (bs : Bytes) : UInt32 := bs.foldl (fun h b => (h ^^^ b.toUInt32) * 16777619) 2166136261
+
+def hex8 (n : UInt32) : String :=
+  let ds := (Nat.toDigits 16 n.toNat)
+  String.ofList (List.replicate (8 - ds.length) '0' ++ ds)
+
+/-- split into lines, each keeping its newline (reverse accumulation, linear) -/
+def splitKeepNL (bs : Bytes) : List Bytes :=
+  let (cur, acc) := bs.foldl (fun (st : Bytes × List Bytes) b =>
+    if b = NL then ([], (b :: st.1).reverse :: st.2) else (b :: st.1, st.2)) ([], [])
+  (if cur = [] then acc else cur.reverse :: acc).reverse
+
+def digestLines (out : Bytes) : String :=
+  if out = [] then "nothing" else
+  joinWith "," ((splitKeepNL out).map fun l => s!"{l.length}:{hex8 (fnv32 l)}")
+
+/-- a chunk part: hex, or `R<len>x<hh>` (a run of one byte) -/
+def parsePart (p : String) : Option Bytes :=
+  if p.startsWith "R" then
+    match (p.drop 1).toString.splitOn "x" with
+    | [l, h] => do
+      let l ← l.toNat?
+      let b ← unhex h
+      match b with
+      | [x] => some (List.replicate l x)
+      | _ => none
+    | _ => none
+  else unhex p
+
+def parseChunk (c : String) : Option (Nat × Bytes) :=
+  match c.splitOn ":" with
+  | [i, parts] => do
+    let i ← i.toNat?
+    let ps ← (parts.splitOn ".").mapM parsePart
+    pure (i, ps.flatten)
+  | _ => none
+
+/-- `c07.sched <nconn> <schedule>`: the multi-connection client model on a schedule of transport
+    chunks.  The printed messages (in print order, hidden ones dropped) are rendered line by line.
+    The specification value is the per-connection statement of `C07_interleave`: every connection's
+    messages are those of its own byte stream alone — rendered in the same global print order, which
+    the number of message terminators per chunk determines. -/
+def opC07Sched : List String → Res
+  | [n, sched] => match n.toNat?, (sched.splitOn ",").mapM parseChunk with
+    | some n, some sc =>
+      if sc.any (fun c => c.1 ≥ n) then bad else
+      let out := multiRunF n sc
+      let shown := (out.filter (fun m => !isHidden m.2)).map (·.2)
+      -- specification: per connection, the messages of that connection's stream alone (`clientMsgsF`),
+      -- taken in the order in which the chunks complete them
+      let perConn : List (List Bytes) := (List.range n).map fun i => clientMsgsF (streamOf i sc)
+      let specOut : List Bytes := Id.run do
+        let mut rest := perConn.toArray
+        let mut acc : Array Bytes := #[]
+        for c in sc do
+          let k := c.2.countP (fun b => b = NL ∨ b = DELIM)
+          let mine := rest[c.1]!
+          acc := acc ++ (mine.take k).toArray
+          rest := rest.set! c.1 (mine.drop k)
+        return acc.toList
+      let specShown := specOut.filter (fun m => !isHidden m)
+      let long := sc.any (fun c => c.2.length > 20000)
+      { m := digestLines shown.flatten, s := digestLines specShown.flatten,
+        t := joinWith "," ((if n > 1 then ["multi-conn"] else []) ++ (if long then ["long-chunk"] else [])
+          ++ (if out.any (fun m => m.2.length > 65536) then ["msg>64k"] else [])
+          ++ (if out.any (fun m => isHidden m.2) then ["hidden"] else [])) }
+    | _, _ => bad
+  | _ => bad
+
 /-! C04 -/
 
 def hexOfString (s : String) : String := hexOf (str s)
@@ -1064,6 +1134,7 @@ def dispatch (line : String) : Res :=
   | "c06.fifo" :: a => opC06Fifo a
   | "c06.merge" :: a => opC06Merge a
   | "c07.multi" :: a => opC07Multi a
+  | "c07.sched" :: a => opC07Sched a
   | "c08.perm" :: a => opC08Perm a
   | "c08.cat" :: a => opC08Cat a
   | "c09.keys" :: a => opC09Keys a
